@@ -6,8 +6,9 @@ CONSTANTS
   ExtraPayloads <- GenExtra
   Sizes <- GenSizes
   Runes <- GenRunes
-  RErrs = {"EOF", "boom", "wrapEOF", "unexpEOF", "panic"}
-  WErrs = {"nil", "boom", "EOF", "short write", "panic"}
+  RErrs = {"EOF", "boom", "wrapEOF", "unexpEOF", "shortbuf", "noprogress", "closedpipe", "short write", "wrapShort", "toolarge", "panic"}
+  WErrs = {"nil", "boom", "EOF", "wrapEOF", "unexpEOF", "short write", "wrapShort", "shortbuf", "noprogress", "closedpipe", "toolarge", "panic"}
+  RunLens = {255, 256, 257}
   MaxLen = 0
   Depth = 62
 INVARIANTS Emit
